@@ -22,8 +22,11 @@ import (
 	"verif/hs"
 )
 
-// Stable classes of the two observations of the long-poll defect (see NOTES.md
-// "Findings"). They are reported out-of-band so that exploration continues.
+// Stable classes of the two observations of the long-poll defect (NOTES.md,
+// finding 1; fixed in /repo by 3445686, so they are no longer listed as known and
+// any occurrence is a VIOLATION), and of the pkg/client double callback. They
+// are reported out-of-band (res.Violate with exactly these signatures) so that
+// exploration continues.
 const (
 	SigLongPollRaw     = "C18|http|enumerate-maxwaitsec|empty-list-though-blobs-exist"
 	SigLongPollClient  = "C18|client|EnumerateBlobsOpts-MaxWait|no-blobs-though-blobs-exist"
